@@ -149,14 +149,14 @@ TEXT = {
            "validates, and n was not the patch booting at death; crash_safe - for a launch [init ; any call, any server behaviour] started from ANY storage directory and killed "
            "anywhere before, between or in the middle of the rewrites of the two state files, with ANY contents of patches/ at that moment, the next launch of this release selects "
            "nothing or a patch that validates, was recorded before the interrupted launch in a readable state of this release (or is the one being installed), and was not booting "
-           "at death; crash_in_progress - if the dying call (anything but a launch start or a success report) found patch bm marked as booting, the next launch does not select bm; crash_safe_not_banned with C02's invariant; reset_fault_safe - one I/O error in any of the three steps of the release-change reset, execution continuing, leaves nothing selectable. "
+           "at death; crash_in_progress - if the dying call (anything but a launch start or a success report) found patch bm marked as booting, the next launch does not select bm; crash_safe_not_banned with C02's invariant; crash_then_other_release - the same launch and crash points, but the launch after the death is one of ANOTHER release (the directory never was a state of it): it selects nothing, because every rewrite of state.json records the release of the process that died; reset_fault_safe - one I/O error in any of the three steps of the release-change reset, execution continuing, leaves nothing selectable. "
            "Theorems (one I/O error, execution continues; Props/C04Eio): a process is ANY sequence of the library's critical sections from ANY directory (a superset of every sequence of calls: reach_step; "
            "every section of every call of the crash model is one of them: opSegs_sec; replaying a section's saves gives its atomic semantics: Sec.saves_apply), hit by at most one fault - a state-file "
            "write fails (file untouched or cut short) and the section stops anywhere later or runs on, or an artifact operation fails and patches/ is left in ANY state, or one step of the release-change "
            "reset fails and the section runs on from its in-memory state; eio_safe_next_launch / eio_safe_same_process - what the next launch, or a later query of the same process, selects from whatever "
            "such a process left validates and is a record of the readable state of this release the process started from, or carries the number of a patch the process was installing. Tie: the real library is killed by an LD_PRELOAD interposer immediately before (or half-way through) its k-th "
            "mutating file-system call, for every k of the launch; the state files at death must be one of the model's crash states, a real re-launch follows, and the same "
-           "predicate (crashChecks) judges what it selects; in mode eio the k-th call fails with EIO instead, the process must survive, and the selection of the same process and of a real re-launch, "
+           "predicate (crashChecks) judges what it selects (30 % of these experiments re-launch under another release and must select nothing); in mode eio the k-th call fails with EIO instead, the process must survive, and the selection of the same process and of a real re-launch, "
            "and every record left in the state files, are judged by the theorem's conclusion and invariant (eioChecks, eioRecordChecks).",
   "design_ref": "DESIGN.md section 4, C04",
   "note": "partial: durability below the system-call level (no fsync) is outside the model; read errors are not modelled; that the values a section saves do not depend on whether its removals of artifacts succeeded is proved for the fallback (tryFallBackKeep_ps), read off the code for add_patch (it gives up before saving) and exercised by the eio runs; 'not banned before' is proved under C02's invariant of the state before the launch (hypothesis hban), which Props/C04Ban discharges for every state reachable by a history without outside rewrites of the state files (reachable_selfBan, crash_safe_reachable).",
